@@ -48,6 +48,8 @@ EventClauses(e) ==
   \* reduce() of an expression containing the inverse, called under whatever is active now, keeps the capture
   \cup (IF e.a = "ApplyInv" /\ e.cap_red # invs[e.n].cap THEN Flag("captured_after_reduce") ELSE {})
   \cup (IF e.a = "ApplyInv" /\ e.fired_red # invs[e.n].cap.cb THEN Flag("callback_used_after_reduce") ELSE {})
+  \* a view of the inverse (its transpose) taken now still holds the capture
+  \cup (IF e.a = "ApplyInv" /\ e.cap_T # invs[e.n].cap THEN Flag("captured_in_transposed_view") ELSE {})
   \* a solve that cannot converge raises exactly when the CAPTURED configuration says solver_throw
   \cup (IF e.a = "ApplyInv" /\ e.raised # invs[e.n].cap.throw THEN Flag("throw_used") ELSE {})
 
